@@ -50,22 +50,30 @@ pub fn content_classes(b: &[u8]) -> Vec<String> {
     v
 }
 
-/// class of a final ` (…)` group: `(no-eol)`, `(mod)` any other documented modifier, `()`, `(other)`
+/// class of a final ` (…)` group: `(no-eol)`, `(mod)` any other documented modifier, `()`, `(other)`;
+/// prefixed with `ub` when the blank before the group is not U+0020 but another Unicode white-space character
 pub fn paren_tail(b: &[u8]) -> Option<String> {
     if b.last() != Some(&b')') {
         return None;
     }
     let open = b.iter().rposition(|x| *x == b'(')?;
-    if open == 0 || b[open - 1] != b' ' {
+    // the blank before the group: U+0020, or (prefix `ub`) another White_Space character
+    let before = String::from_utf8_lossy(&b[..open]).chars().last()?;
+    let prefix = if before == ' ' {
+        ""
+    } else if crate::oracle::rulematch::OTHER_BLANKS.contains(&before) {
+        "ub"
+    } else {
         return None;
-    }
+    };
     let content = String::from_utf8_lossy(&b[open + 1..b.len() - 1]).to_string();
-    Some(match crate::oracle::rulematch::modifier_of(&content) {
-        Some(("no-eol", _)) => "(no-eol)".into(),
-        Some(_) => "(mod)".into(),
-        None if content.is_empty() => "()".into(),
-        None => "(other)".into(),
-    })
+    let class = match crate::oracle::rulematch::modifier_of(&content) {
+        Some(("no-eol", _)) => "(no-eol)",
+        Some(_) => "(mod)",
+        None if content.is_empty() => "()",
+        None => "(other)",
+    };
+    Some(format!("{prefix}{class}"))
 }
 
 /// finer class of one scalar under the Unicode table of the harness
